@@ -44,6 +44,60 @@ def norm_keys(t):
     return rewrite(t, f)
 
 
+def check_derive_dh(ctx, rep, rule, sn, row):
+    """DeriveDiffieHellmanKeyPair of the suite's key-exchange group against the RFC formula (used by C09 R09.7 and C19 R19.4)"""
+    S = ctx.suite(sn)
+    P = suite_params(sn)
+    # ---- DeriveDiffieHellmanKeyPair body
+    bs = [b for b in S.bodies.values() if b.get('name') == 'derive_auth_keypair' and (b.get('impl_trait_dpath') == 'opaque_ke::key_exchange::group::KeGroup' or b.get('trait_default'))]
+    if len(bs) == 1:
+        ds = ctx.summary(sn, bs[0]['generic_path'], params=[Sym('seed')])
+        wd = where_of(ds)
+        if P['ke'] == 'c25519':
+            for p in ds.ok_paths:
+                row(rule, 'DeriveDiffieHellmanKeyPair (Curve25519) = clamp(seed) (RFC 7748)', p.payload,
+                    App('curve25519_dalek::scalar::clamp_integer', Sym('seed')), wd, sn)
+        else:
+            calls = set()
+            for p in ds.paths:
+                for _, e in p.calls('KeGroup::hash_to_scalar'):
+                    calls.add(e[2])
+            ok = bool(calls)
+            concrete_ctrs = set()
+            for inp, dst in sorted(calls, key=repr):
+                inp_cat = Cat([norm(x) for x in inp[1]]) if inp[0] in ('array', 'list') else None
+                dst_cat = Cat([norm(x) for x in dst[1]]) if dst[0] in ('array', 'list') else None
+                ctr = [x for x in subterms(inp, lambda t: t[0] == 'app' and t[1] == 'RangeItem')]
+                want_in = Cat([Sym('seed'), Bytes((33).to_bytes(2, 'big')), Bytes(rfc.DERIVE_DH_INFO), App('I2OSP', ctr[0], Int(1))]) if ctr else None
+                if not ctr and inp[0] in ('array', 'list') and inp[1] and norm(inp[1][-1])[0] == 'bytes' and len(norm(inp[1][-1])[1]) == 1:
+                    # the counter loop was unrolled completely (a loop that is not a `for` over a range): one call per concrete counter value
+                    k = norm(inp[1][-1])[1][0]
+                    concrete_ctrs.add(k)
+                    want_in = Cat([Sym('seed'), Bytes((33).to_bytes(2, 'big')), Bytes(rfc.DERIVE_DH_INFO), Bytes(bytes([k]))])
+                    if k not in (0, 1, 255):
+                        # 256 identical rows add nothing to the report: the formula is compared for each, reported for the boundary counters
+                        if inp_cat != want_in or dst_cat != Bytes(b'DeriveKeyPair' + b'OPRFV1-' + b'\x00' + b'-' + P['suite_id']):
+                            ok = row(rule, 'DeriveDiffieHellmanKeyPair: hash-to-scalar input/DST for counter %d' % k, inp_cat, want_in, wd, sn) and ok
+                        continue
+                want_dst = Bytes(b'DeriveKeyPair' + b'OPRFV1-' + b'\x00' + b'-' + P['suite_id'])
+                ok = ok and row(rule, 'DeriveDiffieHellmanKeyPair: hash-to-scalar input = seed || I2OSP(33,2) || "OPAQUE-DeriveDiffieHellmanKeyPair" || I2OSP(counter,1)', inp_cat, want_in, wd, sn)
+                ok = ok and row(rule, 'DeriveDiffieHellmanKeyPair: DST = "DeriveKeyPair" || "OPRFV1-" || 0x00 || "-" || suite id', dst_cat, want_dst, wd, sn)
+            rep.ob(rule, 'DeriveDiffieHellmanKeyPair: hash-to-scalar calls found', bool(calls), '', wd, sn)
+            # the counter runs over exactly 0..=255, starting at 0 (RFC 9807 section 6.4.2 via RFC 9497 DeriveKeyPair)
+            ranges = set()
+            for inp, dst in calls:
+                for x in subterms(inp, lambda t: t[0] == 'app' and t[1] == 'RangeItem'):
+                    ranges.add((x[2][0], x[2][1]))
+            if ranges:
+                rep.ob(rule, 'DeriveDiffieHellmanKeyPair: the counter loop runs over exactly 0..=255', ranges == {(Int(0), Int(255))},
+                       'counter ranges seen: %s' % sorted((show(a), show(b)) for a, b in ranges), wd, sn)
+            if concrete_ctrs:
+                rep.ob(rule, 'DeriveDiffieHellmanKeyPair: the unrolled counter loop tries exactly the counters 0..255', concrete_ctrs == set(range(256)),
+                       'counters seen: %d (min %s, max %s)' % (len(concrete_ctrs), min(concrete_ctrs), max(concrete_ctrs)), wd, sn)
+    else:
+        rep.ob(rule, 'DeriveDiffieHellmanKeyPair body found', False, 'instances %d' % len(bs), '', sn)
+
+
 def run(ctx):
     rep = core.Report('C09', ctx.tier, EXPLANATION, ASSUMPTIONS)
     rows = 0
@@ -117,46 +171,7 @@ def run(ctx):
             wire = an.ser(ctx, sn, DECODERS['RegistrationUpload'], res.get('message'))
             want = Cat([an.ser_pk(fields(cpk[0]).get('0')), ks['masking_key'], nonce, tag]) if (cpk and tag is not None) else None
             row('R09.W', 'wire image of the registration record = client_public_key || masking_key || nonce || auth_tag', wire, want, w, sn)
-        # ---- DeriveDiffieHellmanKeyPair body
-        bs = [b for b in S.bodies.values() if b.get('name') == 'derive_auth_keypair' and (b.get('impl_trait_dpath') == 'opaque_ke::key_exchange::group::KeGroup' or b.get('trait_default'))]
-        if len(bs) == 1:
-            ds = ctx.summary(sn, bs[0]['generic_path'], params=[Sym('seed')])
-            wd = where_of(ds)
-            if P['ke'] == 'c25519':
-                for p in ds.ok_paths:
-                    row('R09.7', 'DeriveDiffieHellmanKeyPair (Curve25519) = clamp(seed) (RFC 7748)', p.payload,
-                        App('curve25519_dalek::scalar::clamp_integer', Sym('seed')), wd, sn)
-            else:
-                calls = set()
-                for p in ds.paths:
-                    for _, e in p.calls('KeGroup::hash_to_scalar'):
-                        calls.add(e[2])
-                ok = bool(calls)
-                concrete_ctrs = set()
-                for inp, dst in sorted(calls, key=repr):
-                    inp_cat = Cat([norm(x) for x in inp[1]]) if inp[0] in ('array', 'list') else None
-                    dst_cat = Cat([norm(x) for x in dst[1]]) if dst[0] in ('array', 'list') else None
-                    ctr = [x for x in subterms(inp, lambda t: t[0] == 'app' and t[1] == 'RangeItem')]
-                    want_in = Cat([Sym('seed'), Bytes((33).to_bytes(2, 'big')), Bytes(rfc.DERIVE_DH_INFO), App('I2OSP', ctr[0], Int(1))]) if ctr else None
-                    if not ctr and inp[0] in ('array', 'list') and inp[1] and norm(inp[1][-1])[0] == 'bytes' and len(norm(inp[1][-1])[1]) == 1:
-                        # the counter loop was unrolled completely (a loop that is not a `for` over a range): one call per concrete counter value
-                        k = norm(inp[1][-1])[1][0]
-                        concrete_ctrs.add(k)
-                        want_in = Cat([Sym('seed'), Bytes((33).to_bytes(2, 'big')), Bytes(rfc.DERIVE_DH_INFO), Bytes(bytes([k]))])
-                        if k not in (0, 1, 255):
-                            # 256 identical rows add nothing to the report: the formula is compared for each, reported for the boundary counters
-                            if inp_cat != want_in or dst_cat != Bytes(b'DeriveKeyPair' + b'OPRFV1-' + b'\x00' + b'-' + P['suite_id']):
-                                ok = row('R09.7', 'DeriveDiffieHellmanKeyPair: hash-to-scalar input/DST for counter %d' % k, inp_cat, want_in, wd, sn) and ok
-                            continue
-                    want_dst = Bytes(b'DeriveKeyPair' + b'OPRFV1-' + b'\x00' + b'-' + P['suite_id'])
-                    ok = ok and row('R09.7', 'DeriveDiffieHellmanKeyPair: hash-to-scalar input = seed || I2OSP(33,2) || "OPAQUE-DeriveDiffieHellmanKeyPair" || I2OSP(counter,1)', inp_cat, want_in, wd, sn)
-                    ok = ok and row('R09.7', 'DeriveDiffieHellmanKeyPair: DST = "DeriveKeyPair" || "OPRFV1-" || 0x00 || "-" || suite id', dst_cat, want_dst, wd, sn)
-                rep.ob('R09.7', 'DeriveDiffieHellmanKeyPair: hash-to-scalar calls found', bool(calls), '', wd, sn)
-                if concrete_ctrs:
-                    rep.ob('R09.7', 'DeriveDiffieHellmanKeyPair: the unrolled counter loop tries exactly the counters 0..255', concrete_ctrs == set(range(256)),
-                           'counters seen: %d (min %s, max %s)' % (len(concrete_ctrs), min(concrete_ctrs), max(concrete_ctrs)), wd, sn)
-        else:
-            rep.ob('R09.7', 'DeriveDiffieHellmanKeyPair body found', False, 'instances %d' % len(bs), '', sn)
+        check_derive_dh(ctx, rep, 'R09.7', sn, row)
         # ---- server login start: pad, masking, key schedule, MAC, state, wire image
         s = api_summary(ctx, sn, 'slog_start')
         w = where_of(s)
